@@ -57,7 +57,9 @@ def br_set(tok, m):
     _, neg, items = tok
     rs = []
     for it in items:
-        if it[0] == 'ch':
+        if it[0] == 'ech' and m.win and it[1] in '/\\':
+            rs.extend(m.seps)          # C17: under the Windows rules an escaped backslash (or slash) in the pattern is THE separator
+        elif it[0] in ('ch', 'ech'):
             rs.append((ord(it[1]), ord(it[1])))
         elif it[0] == 'rng':
             a, b = ord(it[1]), ord(it[2])
